@@ -8,46 +8,54 @@ OnlyTrue == {TRUE}
 
 (* ---- engine M: 3 orders (8, 16, 32 bytes), pages of 32 bytes, at most 3 pages (12 units) ---- *)
 NSizes == {1, 8, 12, 16, 32, 33}
-NInits == { [bu |-> 2, bb |-> 0, pages |-> 1, memmax |-> 3, sizes |-> NSizes, fw |-> 0],
-            [bu |-> 0, bb |-> 1, pages |-> 2, memmax |-> 3, sizes |-> NSizes, fw |-> 0] }
+NInits == { [bu |-> 2, bb |-> 0, pages |-> 1, memmax |-> 3, sizes |-> NSizes, fw |-> 0, iw |-> 1],
+            [bu |-> 0, bb |-> 1, pages |-> 2, memmax |-> 3, sizes |-> NSizes, fw |-> 0, iw |-> 1] }
 (* thorough: the same with 4 pages (16 units) *)
-N4Inits == { [bu |-> 2, bb |-> 0, pages |-> 1, memmax |-> 4, sizes |-> NSizes, fw |-> 0],
-             [bu |-> 0, bb |-> 1, pages |-> 2, memmax |-> 3, sizes |-> NSizes, fw |-> 0] }
+N4Inits == { [bu |-> 2, bb |-> 0, pages |-> 1, memmax |-> 4, sizes |-> NSizes, fw |-> 0, iw |-> 1],
+             [bu |-> 0, bb |-> 1, pages |-> 2, memmax |-> 3, sizes |-> NSizes, fw |-> 0, iw |-> 1] }
 
 (* ---- engine G: real constants ------------------------------------------- *)
 Top == 536870912   \* 2^29 units = 4 GiB
 
 (* S: small blocks, heavy free-list reuse, odd heap bases *)
 SSizes == {0, 1, 7, 8, 9, 15, 16, 17, 24, 31, 32, 33, 63, 64, 65, 100, 128, 129}
-SInits == { [bu |-> 0, bb |-> 0, pages |-> 1, memmax |-> 65536, sizes |-> SSizes, fw |-> 24],
-            [bu |-> 1, bb |-> 5, pages |-> 1, memmax |-> 65536, sizes |-> SSizes, fw |-> 24],
-            [bu |-> 130, bb |-> 0, pages |-> 0, memmax |-> 65536, sizes |-> SSizes, fw |-> 24],
-            [bu |-> 8190, bb |-> 7, pages |-> 1, memmax |-> 65536, sizes |-> SSizes, fw |-> 24],
-            [bu |-> 139264, bb |-> 1, pages |-> 17, memmax |-> 65536, sizes |-> SSizes, fw |-> 24] }
+SInits == { [bu |-> 0, bb |-> 0, pages |-> 1, memmax |-> 65536, sizes |-> SSizes, fw |-> 24, iw |-> 1],
+            [bu |-> 1, bb |-> 5, pages |-> 1, memmax |-> 65536, sizes |-> SSizes, fw |-> 24, iw |-> 1],
+            [bu |-> 130, bb |-> 0, pages |-> 0, memmax |-> 65536, sizes |-> SSizes, fw |-> 24, iw |-> 1],
+            [bu |-> 8190, bb |-> 7, pages |-> 1, memmax |-> 65536, sizes |-> SSizes, fw |-> 24, iw |-> 1],
+            [bu |-> 139264, bb |-> 1, pages |-> 17, memmax |-> 65536, sizes |-> SSizes, fw |-> 24, iw |-> 1] }
 
 (* P: sizes around every power of two up to 32 MiB +- 1, growth of the memory *)
 PSizes == UNION {{2 ^ k - 1, 2 ^ k, 2 ^ k + 1} : k \in 3..25} \cup {33554433, 50000000, 2147483647}
-PInits == { [bu |-> 0, bb |-> 0, pages |-> 1, memmax |-> 65536, sizes |-> PSizes, fw |-> 20],
-            [bu |-> 16, bb |-> 3, pages |-> 3, memmax |-> 65536, sizes |-> PSizes, fw |-> 20],
-            [bu |-> 2048, bb |-> 0, pages |-> 20, memmax |-> 40000, sizes |-> PSizes, fw |-> 20] }
+PInits == { [bu |-> 0, bb |-> 0, pages |-> 1, memmax |-> 65536, sizes |-> PSizes, fw |-> 20, iw |-> 1],
+            [bu |-> 16, bb |-> 3, pages |-> 3, memmax |-> 65536, sizes |-> PSizes, fw |-> 20, iw |-> 1],
+            [bu |-> 2048, bb |-> 0, pages |-> 20, memmax |-> 40000, sizes |-> PSizes, fw |-> 20, iw |-> 1] }
 
 (* K: page-sized blocks (growth policy: doubling vs requirement, memory's own maximum) *)
 KSizes == {8, 4096, 30000, 32768, 65528, 65536, 65537, 131072, 200000, 1048576}
-KInits == { [bu |-> 0, bb |-> 0, pages |-> 0, memmax |-> 65536, sizes |-> KSizes, fw |-> 15],
-            [bu |-> 100, bb |-> 0, pages |-> 1, memmax |-> 3, sizes |-> KSizes, fw |-> 15],
-            [bu |-> 8000, bb |-> 4, pages |-> 2, memmax |-> 17, sizes |-> KSizes, fw |-> 15],
-            [bu |-> 0, bb |-> 0, pages |-> 1, memmax |-> 100, sizes |-> KSizes, fw |-> 15] }
+KInits == { [bu |-> 0, bb |-> 0, pages |-> 0, memmax |-> 65536, sizes |-> KSizes, fw |-> 15, iw |-> 1],
+            [bu |-> 100, bb |-> 0, pages |-> 1, memmax |-> 3, sizes |-> KSizes, fw |-> 15, iw |-> 1],
+            [bu |-> 8000, bb |-> 4, pages |-> 2, memmax |-> 17, sizes |-> KSizes, fw |-> 15, iw |-> 1],
+            [bu |-> 0, bb |-> 0, pages |-> 1, memmax |-> 100, sizes |-> KSizes, fw |-> 15, iw |-> 1] }
 
 (* T: heap base just below 4 GiB -- "memory never grows past 4 GiB", the last block *)
 (* may end exactly at 2^32                                                          *)
 TSizes == {1, 8, 16, 24, 56}
-TInits == { [bu |-> Top - 10, bb |-> 0, pages |-> 65536, memmax |-> 65536, sizes |-> TSizes, fw |-> 12],
-            [bu |-> Top - 13, bb |-> 2, pages |-> 65535, memmax |-> 65536, sizes |-> TSizes, fw |-> 12],
-            [bu |-> Top - 24, bb |-> 0, pages |-> 1, memmax |-> 65536, sizes |-> TSizes, fw |-> 12],
-            [bu |-> Top - 8192 - 9, bb |-> 0, pages |-> 65535, memmax |-> 65536, sizes |-> TSizes, fw |-> 12],
-            [bu |-> Top - 40, bb |-> 0, pages |-> 65535, memmax |-> 65535, sizes |-> TSizes, fw |-> 12],
-            [bu |-> Top - 12, bb |-> 0, pages |-> 65534, memmax |-> 70000, sizes |-> TSizes, fw |-> 12],
-            [bu |-> Top - 8192 - 4, bb |-> 6, pages |-> 40000, memmax |-> 131072, sizes |-> TSizes, fw |-> 12] }
+TInits == { [bu |-> Top - 10, bb |-> 0, pages |-> 65536, memmax |-> 65536, sizes |-> TSizes, fw |-> 12, iw |-> 1],
+            [bu |-> Top - 13, bb |-> 2, pages |-> 65535, memmax |-> 65536, sizes |-> TSizes, fw |-> 12, iw |-> 1],
+            [bu |-> Top - 24, bb |-> 0, pages |-> 1, memmax |-> 65536, sizes |-> TSizes, fw |-> 12, iw |-> 1],
+            [bu |-> Top - 8192 - 9, bb |-> 0, pages |-> 65535, memmax |-> 65536, sizes |-> TSizes, fw |-> 12, iw |-> 1],
+            [bu |-> Top - 40, bb |-> 0, pages |-> 65535, memmax |-> 65535, sizes |-> TSizes, fw |-> 12, iw |-> 1],
+            [bu |-> Top - 12, bb |-> 0, pages |-> 65534, memmax |-> 70000, sizes |-> TSizes, fw |-> 12, iw |-> 1],
+            [bu |-> Top - 8192 - 4, bb |-> 6, pages |-> 40000, memmax |-> 131072, sizes |-> TSizes, fw |-> 12, iw |-> 1] }
+
+(* I: invalid frees early and often (short behaviours: they end two steps after the poison) *)
+ISizes == {8, 16, 24, 64, 100}
+IInits == { [bu |-> 2, bb |-> 0, pages |-> 1, memmax |-> 65536, sizes |-> ISizes, fw |-> 14, iw |-> 12],
+            [bu |-> 3, bb |-> 1, pages |-> 1, memmax |-> 65536, sizes |-> ISizes, fw |-> 14, iw |-> 12],
+            [bu |-> 0, bb |-> 0, pages |-> 1, memmax |-> 65536, sizes |-> ISizes, fw |-> 14, iw |-> 12],
+            [bu |-> 8192, bb |-> 0, pages |-> 1, memmax |-> 2, sizes |-> ISizes, fw |-> 14, iw |-> 12] }
 
 MainInits == SInits \cup PInits \cup KInits
+EdgeInits == TInits \cup IInits
 =============================================================================
